@@ -75,6 +75,16 @@ async fn main() {
         if sp.has_wrap::<ProcessGroup>() { w.push("G") }
         if sp.has_wrap::<ResetSigmask>() { w.push("R") }
         let mut oracle = String::new();
+        // the property's own statement of the argument vector, written down independently of to_spawnable():
+        // no shell: program, then every argument; shell: the shell, its options, the program option, the command string, the extra arguments
+        let spec: Vec<std::ffi::OsString> = match &cmd.program {
+            Program::Exec { prog, args, .. } => std::iter::once(prog.clone().into_os_string()).chain(args.iter().map(|a| a.into())).collect(),
+            Program::Shell { shell, command, args } => std::iter::once(shell.prog.clone().into_os_string()).chain(shell.options.iter().map(|o| o.into()))
+                .chain(shell.program_option.iter().map(|p| p.clone().into_owned())).chain(std::iter::once(command.into())).chain(args.iter().map(|a| a.into())).collect(),
+        };
+        if argv != spec { oracle = format!("the command is constructed as {} but its program and arguments are {}", hxl(&argv), hxl(&spec)); }
+        let argv_impl = argv.clone();
+        let argv = spec.clone();
         if real {
             // through the real Job: spawn hook sets env + cwd; helper reports what it saw
             let outp = out(&format!("helper_out_{i}"));
@@ -104,7 +114,7 @@ async fn main() {
             // expected from the same source of truth as the model line: helper's argv = argv minus program (exec) or extra args incl $0 (shell)
             let exp_args: Vec<std::ffi::OsString> = if is_shell { if argv.len() > 3 { argv[3..].to_vec() } else { vec!["sh".into()] } } else { argv[1..].to_vec() };
             let exp = format!("argv={} pg={} sess={} cwd={} env={}\n", hxl(&exp_args), opts.session || opts.grouped, opts.session, hx(b"/usr"), hx(envv.as_bytes()));
-            if rep != exp { oracle = format!("spawned child saw {} but the command says {}", rep.trim(), exp.trim()); }
+            if rep != exp && oracle.is_empty() { oracle = format!("spawned child saw {} but the command says {}", rep.trim(), exp.trim()); }
             if scenario != 0 {
                 if runs.len() != 2 { oracle = format!("respawn scenario {scenario}: {} runs reported instead of 2", runs.len()); }
                 else if format!("{}\n", runs[1]) != exp { oracle = format!("respawn scenario {scenario}: the second run saw {} but the command and its spawn hook say {}", runs[1], exp.trim()); }
@@ -112,6 +122,6 @@ async fn main() {
             drop(job); task.abort();
         }
         writeln!(cases, "{line}").unwrap();
-        writeln!(outs, "argv={} wraps={}{}", hxl(&argv), w.join(","), if oracle.is_empty() { String::new() } else { format!("\t!{oracle}") }).unwrap();
+        writeln!(outs, "argv={} wraps={}{}", hxl(&argv_impl), w.join(","), if oracle.is_empty() { String::new() } else { format!("\t!{oracle}") }).unwrap();
     }
 }
